@@ -1,6 +1,7 @@
 import PPLV.Term.ProofsPR
 import PPLV.Term.ProofsGen
 import PPLV.Term.ProofsSpaceGen
+import PPLV.Term.ProofsCover
 
 /-!
 # C18 — termination analysis returns only genuine ranking functions; the methods agree
@@ -159,6 +160,35 @@ example : existsRankingDecider 1 idLoop [⟨.point, [0, 0], 1⟩, ⟨.ray, [1, 1
 example : existsRankingDecider 1 [falseRow] [] = some true := by decide +kernel
 -- a wrong hint is never believed
 example : existsRankingDecider 1 idLoop [⟨.point, [-1, 0], 1⟩] = none := by decide +kernel
+
+/-- the converse of the refutation: when the hint covers the relation (every pair is a combination
+    of the generators, e.g. established by K1 `checkDD`), the finite system `rankCons` is exact —
+    each of its solutions is a ranking function of the relation -/
+theorem rank_cons_exact (n : Nat) (cs : List Con) (gs : List Gen)
+    (hclosed : ∀ g ∈ gs, g.kind ≠ .cpoint) (hgwf : gensWF (2*n) gs = true)
+    (hcover : ∀ w ∈ sem cs, w ∈ GenSem (2*n) gs) (mu : Val)
+    (h : Sat (rankCons n (expandLines gs)) mu) : Spec.isRanking n (sem cs) mu :=
+  fun w hw => rankCons_sound n gs hclosed hgwf mu h w (hcover w hw)
+
+/-- **Completeness of the decider, partial.**  With a covering hint the decider answers
+    `some true` as soon as the (untrusted) simplex search `findPoint` returns a solution of the
+    finite system.  Missing for full completeness: a proof that the search returns a solution
+    whenever the system is feasible (the simplex of `PPLV/Lin/Simplex.lean` is deliberately
+    untrusted and unproved; K1's complete `feasible` does not produce a witness), and that the
+    hint of the harness (the library's own generators) is exact — the latter is checked at run
+    time, not assumed: a hint that is not exact leads to `none`, never to a wrong answer
+    (`exists_ranking_decider_sound`). -/
+theorem exists_ranking_decider_complete_partial (n : Nat) (cs : List Con) (gs : List Gen)
+    (hwf : WF (2*n) cs) (hne : isEmptyB (2*n) cs = false)
+    (hclosed : ∀ g ∈ gs, g.kind ≠ .cpoint) (hgwf : gensWF (2*n) gs = true)
+    (hcover : ∀ w ∈ sem cs, w ∈ GenSem (2*n) gs) (c : List Int) (d : Int)
+    (hfp : findPoint (n + 1) (rankCons n (expandLines gs)) = some (c, d)) :
+    existsRankingDecider n cs gs = some true := by
+  obtain ⟨hd, hsat⟩ := findPoint_sound _ _ c d hfp
+  have hr : isRankingB n cs c d = true :=
+    (isRankingB_iff n cs c d hwf).mpr ⟨hd, rank_cons_exact n cs gs hclosed hgwf hcover _ hsat⟩
+  unfold existsRankingDecider
+  simp [hne, hfp, hr]
 
 /-! ## every element of a returned space of functions -/
 
